@@ -248,6 +248,12 @@ func ParsePKCS8EcryptedPrivateKey(der, pwd []byte) (*sm2.PrivateKey, error) {
 	salt := pkdf2Params.Salt
 	iter := pkdf2Params.IterationCount
 	encryptedKey := keyInfo.EncryptedData
+	if len(iv) != aes.BlockSize {
+		return nil, errors.New("x509: invalid IV length")
+	}
+	if len(encryptedKey) == 0 || len(encryptedKey)%aes.BlockSize != 0 {
+		return nil, errors.New("x509: invalid encrypted private key length")
+	}
 	var key []byte
 	switch {
 	case pkdf2Params.Prf.Algorithm.Equal(oidKEYMD5):
